@@ -479,6 +479,8 @@ def purge(node: dawgie.pl.dag.Node, target: str):
         node.get('doing').remove(target)
     if target in node.get('todo', []):
         node.get('todo').remove(target)
+    if node in que and not (node.get('todo', []) or node.get('doing', [])):
+        que.remove(node)
 
     for child in node:
         purge(child, target)
